@@ -124,6 +124,15 @@ CHECKS = {
         "wildcmp(pattern, name|type) according to the 'name:' prefix.",
    note="Not decided: that tools::wildcmp implements glob semantics for all pattern/string pairs (a back-tracking matcher; would need "
         "exhaustive comparison with a reference matcher - not static analysis), std::stoi's rejection of malformed numbers."),
+ "C11": dict(cat="other", ref="DESIGN.md section 4 C11",
+   technique="dominance/must-pass-through over the pipeline's CFG, AST guard tables, data lint of all shipped option XML files against type heads and choice syntax extracted from the validator's code, taint rule (values reach the XML stream only through an escaping function), reachability rule for the list-merge template copy",
+   text="Decides: ProcessUserInput runs all seven stages once on every path in the required order on one tree; undeclared options, "
+        "missing REQUIRED options and OPTIONAL leftovers are handled by guards that use the reserved keywords consistently; extra list "
+        "elements are copies of the pristine default element (no leakage between list entries); every one of the shipped option "
+        "descriptions resolves its links, has well-formed choices, defaults that satisfy their own choices and distinct list tags; "
+        "XML output escapes values and attributes so that written trees load back; bool accepts exactly the documented literals.",
+   note="Not decided: the complete merge semantics on arbitrary user trees, expat's behaviour, numeric lexical_cast details. The lint "
+        "covers xtp/share/xtp/xml and its sub-packages (csg_defaults.xml.in is a template without choices attributes)."),
 }
 NA = {
 }
